@@ -16,6 +16,8 @@ func simIterStart(iter *iavlIterator) { simIterDoneCh.Store(iter, make(chan stru
 func simIterDone(iter *iavlIterator) {
 	if ch, ok := simIterDoneCh.Load(iter); ok {
 		close(ch.(chan struct{}))
+		// an iterator that is read to its end and never closed must not stay registered (it pins its tree)
+		simIterDoneCh.Delete(iter)
 	}
 }
 
